@@ -9,6 +9,8 @@
 #include <llvm/IR/Constants.h>
 #include <llvm/IR/DataLayout.h>
 #include <llvm/IR/Operator.h>
+#include <llvm/IR/CFG.h>
+#include <llvm/ADT/PostOrderIterator.h>
 #include <llvm/IR/GetElementPtrTypeIterator.h>
 #include <llvm/IRReader/IRReader.h>
 #include <llvm/Support/SourceMgr.h>
@@ -820,9 +822,22 @@ struct FnEmitter {
     // name args & all values first (stable)
     for (auto& a : F.args()) name(&a);
     for (auto& bb : F) { name(&bb); for (auto& I : bb) if (!I.getType()->isVoidTy()) name(&I); }
-    for (auto& bb : F) {
-      out << " " << name(&bb) << ": ;\n";
-      for (auto& I : bb) emitInst(I);
+    // Blocks are emitted in reverse post-order so that natural loops are contiguous and their back edges are the
+    // only backward gotos (LLVM's layout after loop rotation puts e.g. an initialisation loop after the loop it
+    // feeds; CBMC's per-back-edge unwinding then sees interleaved regions and reports spurious unwinding failures).
+    {
+      std::set<const BasicBlock*> done;
+      ReversePostOrderTraversal<const Function*> rpo(&F);
+      for (const BasicBlock* bb : rpo) {
+        done.insert(bb);
+        out << " " << name(bb) << ": ;\n";
+        for (auto& I : *bb) emitInst(I);
+      }
+      for (auto& bb : F) {   // unreachable blocks (kept for completeness of labels)
+        if (done.count(&bb)) continue;
+        out << " " << name(&bb) << ": ;\n";
+        for (auto& I : bb) emitInst(I);
+      }
     }
     body << fnsig(&F, gname(&F)) << " {\n";
     for (auto& bb : F) for (auto& I : bb) {
